@@ -228,7 +228,8 @@ type c15Scenario struct {
 	Seed   int64    `json:"seed"`   // rest of the stream, and the sampled alterations
 	Alter  bool     `json:"alter"`  // apply the single-component alterations (otherwise own-id verification and reconstructions)
 	Only   []int    `json:"only"`   // with Alter: the shares (indices) whose material is altered; empty = all
-	AltMax int      `json:"altmax"` // toy: altered ids / share values range over 0..AltMax exhaustively (0: sampled)
+	AltMin int      `json:"altmin"` // toy: altered ids / share values range over AltMin..AltMax exhaustively (AltMax = 0: the
+	AltMax int      `json:"altmax"` // catalogue); AltMin < 0: negative representatives
 	Label  string   `json:"label"`  // class of the dealing (coverage)
 }
 
@@ -493,6 +494,12 @@ func c15Run(cv *c15Curve, sc c15Scenario, dd *c15Dedupe) (res *c15Result) {
 	}
 	sG := obs.BaseMul(cv.G, cv.mod(secret))
 	if !sG.Eq(vpts[0]) {
+		if secret.Sign() < 0 && obs.BaseMul(cv.G, cv.mod(new(big.Int).Neg(secret))).Eq(vpts[0]) {
+			// the secret is a residue modulo q given as a negative integer -s: the commitment published is s*G, the shares are
+			// dealt for -s, so that the first commitment is not secret*G and no dealt share verifies
+			res.dviol("C15:Create:negative-secret-commitment-is-magnitude", "vss.Create on %s with the secret given as a negative integer publishes |secret|*G as first commitment, which is not secret*G (t=%d, n=%d, secret %s)", cv.Name, t, n, core15Short(secret))
+			return
+		}
 		res.dviol("C15:Create:V0-is-not-secret*G", "vss.Create on %s: the first commitment is not secret*G (t=%d, n=%d)", cv.Name, t, n)
 	}
 	// the polynomial: through (0, secret) and the first t shares; everything else must agree with it
@@ -609,7 +616,7 @@ func c15Run(cv *c15Curve, sc c15Scenario, dd *c15Dedupe) (res *c15Result) {
 			if !smooth(c.id) && got {
 				res.Drift = append(res.Drift, "a degenerate share verifies")
 			}
-		case c.kind == "id" && congruentID, c.kind == "share" && congruentShare && c.share.Sign() >= 0:
+		case c.kind == "id" && congruentID, c.kind == "share" && congruentShare:
 			// the same element of Z_q written as another integer: not an alteration; the model says it verifies like the
 			// dealt one, the property says nothing
 			if got {
@@ -731,27 +738,61 @@ func c15Run(cv *c15Curve, sc c15Scenario, dd *c15Dedupe) (res *c15Result) {
 			line.Rec = append(line.Rec, []any{one, logv})
 		}
 	}
-	// ReConstruct on lists that are not subsets of a dealing: ids that coincide modulo q (recorded for the toy trace only;
-	// the property does not speak about it, the model says: error)
-	if cv.Toy != nil && sc.Alter && n >= 2 {
-		qi := int(q.Int64())
-		x0, _ := c15Int(ids[0])
-		s0, _ := c15Int(shares[0].Share)
-		s1, _ := c15Int(shares[1].Share)
-		for _, x1 := range []int{x0, x0 + qi} {
-			sub := vss.Shares{{Threshold: 1, ID: big.NewInt(int64(x0)), Share: big.NewInt(int64(s0))}, {Threshold: 1, ID: big.NewInt(int64(x1)), Share: big.NewInt(int64(s1))}}
+	// ReConstruct on lists that are not subsets of a dealing (the property does not speak about them: a departure from the
+	// model is drift, what agrees with it is written to the toy trace):
+	// (1) two ids that coincide modulo q, as representatives of either sign - the model says: error;
+	// (2) the dealt shares written with other representatives (id - q, id + q, share - q: negative and >= q integers for the
+	//     same elements of Z_q) - the model says: the secret, as for the dealt integers (ReprBlindCall).
+	if sc.Alter && n >= 2 {
+		for _, sh := range []int64{0, 1, -1, -2} {
+			x1 := new(big.Int).Add(ids[0], new(big.Int).Mul(q, big.NewInt(sh)))
+			sub := vss.Shares{{Threshold: 1, ID: new(big.Int).Set(ids[0]), Share: new(big.Int).Set(shares[0].Share)}, {Threshold: 1, ID: x1, Share: new(big.Int).Set(shares[1].Share)}}
 			var got *big.Int
 			var rerr error
 			pan := c15Recover(func() { got, rerr = sub.ReConstruct(cv.EC) })
-			if pan != "" {
+			res.Recons++
+			switch {
+			case pan != "":
 				res.Drift = append(res.Drift, "ReConstruct panics on ids equal mod q: "+pan)
-				continue
+			case rerr == nil:
+				res.Drift = append(res.Drift, fmt.Sprintf("ReConstruct on the ids x and x%+d*q returns %s, the model says error (not demanded by the property)", sh, core15ShortP(got)))
+			case cv.Toy != nil:
+				x0v, ok0 := c15Int(ids[0])
+				x1v, ok1 := c15Int(x1)
+				s0, _ := c15Int(shares[0].Share)
+				s1, _ := c15Int(shares[1].Share)
+				if ok0 && ok1 && dd.first(fmt.Sprintf("X|%d|%d|%d|%d", x0v, x1v, s0, s1)) {
+					line.Recx = append(line.Recx, []any{1, []int{x0v, x1v}, []int{s0, s1}, -1})
+				}
 			}
-			logv := -1
-			if rerr == nil && got != nil {
-				logv, _ = c15Int(got)
+		}
+	}
+	if sc.Alter && n >= t+1 {
+		for _, sh := range []int64{-1, 1, -3} {
+			shift := new(big.Int).Mul(q, big.NewInt(sh))
+			sub := make(vss.Shares, n)
+			xl, sl, small := make([]int, n), make([]int, n), true
+			for i := range sub {
+				sub[i] = &vss.Share{Threshold: t, ID: new(big.Int).Add(cv.mod(ids[i]), shift), Share: new(big.Int).Add(cv.mod(shares[i].Share), shift)}
+				var ok1, ok2 bool
+				xl[i], ok1 = c15Int(sub[i].ID)
+				sl[i], ok2 = c15Int(sub[i].Share)
+				small = small && ok1 && ok2
 			}
-			line.Recx = append(line.Recx, []any{1, []int{x0, x1}, []int{s0, s1}, logv})
+			var got *big.Int
+			var rerr error
+			pan := c15Recover(func() { got, rerr = sub.ReConstruct(cv.EC) })
+			res.Recons++
+			switch {
+			case pan != "":
+				res.Drift = append(res.Drift, "ReConstruct panics on the dealt shares written with other representatives: "+pan)
+			case rerr != nil || got == nil || cv.mod(got).Cmp(secretModQ) != 0:
+				res.Drift = append(res.Drift, fmt.Sprintf("ReConstruct on all dealt shares written as id%+d*q, share%+d*q returns %s, %v, the model says the secret (not demanded by the property)", sh, sh, core15ShortP(got), rerr))
+			case cv.Toy != nil && small:
+				if v, ok := c15Int(got); ok && dd.first(fmt.Sprintf("X|%d|%v|%v", t, xl, sl)) {
+					line.Recx = append(line.Recx, []any{t, xl, sl, v})
+				}
+			}
 		}
 	}
 	finish()
@@ -804,7 +845,7 @@ func c15VerifyCalls(cv *c15Curve, sc c15Scenario, rng *rand.Rand, t int, ids []*
 		var idAlts, shAlts []alt
 		s := shares[i].Share
 		if sc.AltMax > 0 {
-			for v := 0; v <= sc.AltMax; v++ {
+			for v := sc.AltMin; v <= sc.AltMax; v++ {
 				idAlts = append(idAlts, alt{"x", big.NewInt(int64(v))})
 				shAlts = append(shAlts, alt{"x", big.NewInt(int64(v))})
 			}
@@ -816,10 +857,17 @@ func c15VerifyCalls(cv *c15Curve, sc c15Scenario, rng *rand.Rand, t int, ids []*
 				{"+q", new(big.Int).Add(id, q)}, {"+q+1", new(big.Int).Add(new(big.Int).Add(id, q), big.NewInt(1))},
 				{"0", big.NewInt(0)}, {"q", new(big.Int).Set(q)}, {"random", new(big.Int).Rand(rng, q)},
 				{"flipbit", new(big.Int).Xor(id, new(big.Int).Lsh(big.NewInt(1), uint(rng.Intn(q.BitLen()))))},
+				// negative integers: the same id written as id-q / id-3q (recorded), other classes, and -q (0 mod q)
+				{"-q(congruent)", new(big.Int).Sub(id, q)}, {"-3q(congruent)", new(big.Int).Sub(id, new(big.Int).Mul(q, big.NewInt(3)))},
+				{"negated", new(big.Int).Neg(id)}, {"+1-q", new(big.Int).Sub(new(big.Int).Add(id, big.NewInt(1)), q)},
+				{"=-q", new(big.Int).Neg(q)}, {"random-2q", new(big.Int).Sub(new(big.Int).Rand(rng, q), new(big.Int).Lsh(q, 1))},
 			}
 			for j := 0; j < n; j++ {
 				if j != i {
 					idAlts = append(idAlts, alt{"other-party", ids[j]})
+					if j == (i+1)%n { // one other party's id written as a negative integer
+						idAlts = append(idAlts, alt{"other-party-q", new(big.Int).Sub(cv.mod(ids[j]), q)})
+					}
 				}
 			}
 			shAlts = []alt{
@@ -828,6 +876,9 @@ func c15VerifyCalls(cv *c15Curve, sc c15Scenario, rng *rand.Rand, t int, ids []*
 				{"+q", new(big.Int).Add(s, q)}, {"+q+1", new(big.Int).Add(new(big.Int).Add(s, q), big.NewInt(1))},
 				{"0", big.NewInt(0)}, {"q", new(big.Int).Set(q)}, {"random", new(big.Int).Rand(rng, q)},
 				{"flipbit", new(big.Int).Xor(s, new(big.Int).Lsh(big.NewInt(1), uint(rng.Intn(q.BitLen()))))},
+				// negative integers: the same value written as s-q (recorded), other values, and -q (0 mod q)
+				{"-q(congruent)", new(big.Int).Sub(s, q)}, {"+1-q", new(big.Int).Sub(new(big.Int).Add(s, big.NewInt(1)), q)},
+				{"=-q", new(big.Int).Neg(q)}, {"random-2q", new(big.Int).Sub(new(big.Int).Rand(rng, q), new(big.Int).Lsh(q, 1))},
 			}
 			for j := 0; j < n; j++ {
 				if j != i {
@@ -836,20 +887,24 @@ func c15VerifyCalls(cv *c15Curve, sc c15Scenario, rng *rand.Rand, t int, ids []*
 			}
 		}
 		for _, al := range idAlts {
-			if al.v.Sign() < 0 || al.v.Cmp(ids[i]) == 0 {
+			if al.v.Cmp(ids[i]) == 0 {
 				continue
 			}
 			add(c15VCall{kind: "id", sub: al.sub, i: i, sthr: t, id: al.v, share: s, thr: t, vs: vs, mustFail: true, key: "C15:Verify:accepts-share-under-another-id"})
 		}
+		negS, negDone := new(big.Int).Neg(s), false
 		for _, al := range shAlts {
-			if al.v.Sign() < 0 || al.v.Cmp(s) == 0 {
+			if al.v.Cmp(s) == 0 {
 				continue
 			}
-			add(c15VCall{kind: "share", sub: al.sub, i: i, sthr: t, id: ids[i], share: al.v, thr: t, vs: vs, mustFail: true, key: "C15:Verify:accepts-altered-share"})
+			key, sub := "C15:Verify:accepts-altered-share", al.sub
+			if al.v.Cmp(negS) == 0 { // the negated share: -s is not congruent to s (q is odd, s != 0)
+				key, sub, negDone = "C15:Verify:accepts-negated-share", "negative", true
+			}
+			add(c15VCall{kind: "share", sub: sub, i: i, sthr: t, id: ids[i], share: al.v, thr: t, vs: vs, mustFail: true, key: key})
 		}
-		// the negated share as a negative big.Int: -s is not congruent to s (q is odd, s != 0)
-		if s.Sign() > 0 {
-			add(c15VCall{kind: "share", sub: "negative", i: i, sthr: t, id: ids[i], share: new(big.Int).Neg(s), thr: t, vs: vs, mustFail: true, key: "C15:Verify:accepts-negated-share"})
+		if s.Sign() != 0 && !negDone {
+			add(c15VCall{kind: "share", sub: "negative", i: i, sthr: t, id: ids[i], share: negS, thr: t, vs: vs, mustFail: true, key: "C15:Verify:accepts-negated-share"})
 		}
 		// --- commitments: one component replaced by another valid point
 		for k := 0; k <= t; k++ {
